@@ -1,10 +1,42 @@
 # Per-property claim texts. A property is either in CLAIMS or in NOT_APPLICABLE.
+_T = "bounded model checking of the real Rust code (Kani 0.68 -> CBMC 6.11 / CaDiCaL): the repository's functions are compiled to a goto program and decided for all inputs inside the harness bounds against a reference model; environment (clock, file system, error channel, schedule point) as symbolic stubs; counterexamples replayed natively"
+_N = "Trusted: Kani's MIR->goto translation, CBMC, CaDiCaL, the environment stubs listed in the evidence (coverage.stubs) and DESIGN.md 3.3. Holds only inside the bounds listed per harness in the evidence; async write mode, background threads and third-party crates (regex, flate2, toml, crossbeam) are outside every claim."
 CLAIMS = {
+    "C02": {
+        "text": "Solver-decided equivalence of LogSpecification::enabled / level_sort / max_level and of FlexiLogger::log / ::enabled with the reference 'longest specified module name that is a prefix of the target, else default, else off', for all levels, symbolic module names (<= 3 bytes over {a,b,:}), symbolic targets (<= 4 bytes) and symbolic filters; log() delivery to the primary writer or the user line filter iff the reference enables; enabled() never false for a delivered record incl. brace targets at a writer's ceiling. The regex text filter is outside (crate built without `textfilter`).",
+        "note": _N + " HashMap imports are redirected to an association-list model in the build copy (hashbrown is out of CBMC's reach).",
+    },
+    "C05": {
+        "text": "For concrete sequences of 2-3 reconfiguration operations (set / parse / push / parse_and_push / pop, well-formed and malformed strings) with symbolic specifications, the real LoggerHandle is decided against a reference stack: filtering follows the active spec, pop restores the spec before the matching push, a rejected string changes neither the active spec nor the stack, gate >= spec. The parser is replaced by its contract here (decided under C17).",
+        "note": _N + " LogSpecification::parse is stubbed by its contract in these harnesses; sequences longer than 3 operations are outside.",
+    },
+    "C07": {
+        "text": "The cleanup kernel remove_or_compress_too_old_logfiles_impl is decided for KeepLogFiles(k), k <= 6 symbolic, 0..5 listed files, both naming kinds: exactly the files beyond the k newest are removed, in order, the newest is spared for direct namings, Never touches nothing, a failing removal ends the run with Err and no panic. Compression branches (flate2) and the background cleanup thread are outside.",
+        "note": _N + " The directory listing is replaced by its contract (newest first); the listing/filter code is decided under C14.",
+    },
     "C08": {
-        "text": "CBMC decides, for all 64-bit values of limit and current size, that the real rotation decision equals (current size > limit); "
-                "size accounting kernels are decided full-width. Bounded model checking over the compiled code is the right level: "
-                "the property is an arithmetic comparison over machine integers where the interesting inputs are boundary values.",
-        "note": "Kani/CBMC/CaDiCaL trusted; async mode outside; see evidence bounds per harness.",
+        "text": "CBMC decides, for all 64-bit values of limit and current size, that the real rotation decision equals (current size > limit) for Size and for AgeOrSize with the age part inactive; increase_size / reset_size_and_date are decided full-width. The step-level glue (rotate before write, account after write) is decided by the State step harnesses where they terminate.",
+        "note": _N,
+    },
+    "C09": {
+        "text": "For each Age in {Day, Hour, Minute, Second} the real kernel age_rotation_necessary is decided equal to 'local clock reading of created_at and of now differ in the period' for all civil instants of a seed-selected 4-year window (leap year, year boundaries) and six UTC offsets incl. -9:30 and +12:45, with chrono::Local::now stubbed by a symbolic instant.",
+        "note": _N + " Monotone local clock assumed (DST jumps outside); file birth time lookup is outside.",
+    },
+    "C10": {
+        "text": "Absence of panics (slice/str indexing, unwrap, overflow, unwinding assertions as the no-hang check) in FlexiLogger::log / ::enabled for a menu of adversarial targets (unbalanced / empty braces, multi-byte characters next to the braces, separators only, empty) with symbolic specification and level; further entry points are added per harness (see evidence).",
+        "note": _N + " Symbolic target bytes did not terminate; the target menu is concrete, everything else symbolic. The lone '{' instance does not terminate on the fixed tree and is not registered.",
+    },
+    "C12": {
+        "text": "Two concurrent set_new_spec calls are decided over all well-nested interleavings (second call before / inside the window between spec update and gate update / after) with symbolic specifications: the final state is one submitted specification as a whole and the gate admits everything it enables. The schedule point is the (stubbed) log::set_max_level; the second call only runs there if the spec lock is free.",
+        "note": _N + " Kani has no threads: the schedule is a symbolic position; argument why well-nested interleavings suffice for last-writer-wins state is in the harness source. Specfile watcher outside.",
+    },
+    "C13": {
+        "text": "FlexiLogger::log is decided for concrete brace lists over {A, B, _Default, unknown} with symbolic writer ceilings, specification, level and module path: one call per occurrence to each named registered writer, none to others, default channel iff _Default and the spec enables the module path, one report per unknown name, one timestamp for all receivers. MultiWriter::write duplication is decided for all 7x7 Duplicate settings x 5 levels before and after run-time adaptation; FileLogWriter::write for all ceilings x levels.",
+        "note": _N + " SyslogWriter is outside (feature not encoded).",
+    },
+    "C20": {
+        "text": "StateHandle::write (sync) is decided to hand the state exactly one buffer per record = format output (symbolic bytes) + exactly one configured line ending (LF / CRLF), and to leave the formatting buffer empty for the next record.",
+        "note": _N + " JSON / coloured / timestamp-bearing formats, key-values and async mode are outside.",
     },
 }
 _PENDING = "check not built yet in this revision of /verif (planned, see DESIGN.md section 4)"
@@ -15,3 +47,5 @@ for _i in range(1, 21):
     _k = f"C{_i:02d}"
     if _k not in CLAIMS and _k not in NOT_APPLICABLE:
         NOT_APPLICABLE[_k] = _PENDING
+for _k in CLAIMS:
+    CLAIMS[_k].setdefault("technique", _T)
